@@ -38,6 +38,12 @@ type spec struct {
 	// besteffort: Mode nopipe | outage | busy; DeadMs = OptionSendDeadline (0: not set)
 	Mode   string `json:"mode,omitempty"`
 	DeadMs int    `json:"dead_ms,omitempty"`
+	// wire: REQ dials a transport-level peer over the real transport Tr with NConn connections; Steps is a
+	// script of T (retry interval elapses) D (the carrying connection is closed by the peer) P (peer silent
+	// beyond the send deadline DeadMs).  senddeadline (vt): Mode ready | held, Via self | all, Steps of T D
+	Tr    string `json:"tr,omitempty"`
+	NConn int    `json:"nconn,omitempty"`
+	Steps string `json:"steps,omitempty"`
 }
 
 func TestC04(t *testing.T) {
@@ -107,8 +113,44 @@ func TestC04(t *testing.T) {
 		}
 		cases = append(cases, mon.CaseSpec{Name: fmt.Sprintf("besteffort/%s/d%d/r%d", sp.Mode, sp.DeadMs, sp.RetryMs), Spec: sp})
 	}
+	// the request travels over the real transports to a transport-level peer that reads every frame
+	for i := 0; i < n/10; i++ {
+		sp := spec{Start: "wire", Tr: hx.Transports[i%len(hx.Transports)], RetryMs: []int{60, 3600000, 90, 0}[(i/len(hx.Transports))%4],
+			DeadMs: []int{0, 15, 30}[rnd.Intn(3)], NConn: 1 + rnd.Intn(2), NCtx: 1 + rnd.Intn(2)}
+		switch {
+		case sp.RetryMs == 0:
+			sp.Steps = "P"
+			if sp.DeadMs == 0 {
+				sp.DeadMs = 15
+			}
+		case sp.RetryMs >= 3600000:
+			sp.Steps = []string{"D", "DD", "PD", "PDD", "DPD"}[rnd.Intn(5)]
+		default:
+			sp.Steps = []string{"T", "TD", "DT", "TT", "PTD", "DTD", "PDT"}[rnd.Intn(7)]
+		}
+		cases = append(cases, mon.CaseSpec{Name: fmt.Sprintf("wire/%s/%s/r%d/d%d", sp.Tr, sp.Steps, sp.RetryMs, sp.DeadMs), Spec: sp})
+	}
+	// a send deadline (no best effort) elapses after the request was handed to a peer that stays silent
+	for i := 0; i < n/10; i++ {
+		sp := spec{Start: "senddeadline", Mode: []string{"ready", "ready", "held"}[i%3], DeadMs: []int{8, 15, 25, 40}[(i/3)%4],
+			RetryMs: []int{3600000, 100, 0, 150}[(i/12)%4], Via: []string{"self", "all"}[rnd.Intn(2)], NCtx: 1 + rnd.Intn(3), NPipes: 1 + rnd.Intn(3)}
+		if sp.RetryMs == 0 || sp.RetryMs >= 3600000 {
+			sp.Steps = []string{"", "D", "D"}[rnd.Intn(3)]
+		} else {
+			sp.Steps = []string{"", "T", "TD", "DT", "TT", "D"}[rnd.Intn(6)]
+		}
+		cases = append(cases, mon.CaseSpec{Name: fmt.Sprintf("senddeadline/%s/%s/d%d/r%d", sp.Mode, sp.Steps, sp.DeadMs, sp.RetryMs), Spec: sp})
+	}
 	r.Run(cases, func(c *mon.Case) {
 		sp := c.Spec.(spec)
+		if sp.Start == "wire" {
+			runWire(c, sp)
+			return
+		}
+		if sp.Start == "senddeadline" {
+			runSendDeadline(c, sp)
+			return
+		}
 		if sp.Start == "retrychange" {
 			runRetryChange(c, sp)
 			return
